@@ -47,6 +47,10 @@ example : spec 7 (.msg 1 false) .err ⟨.msg 1 false, 1, some 7⟩ = false := by
     leg is called with the same context and the same payload `q`. -/
 theorem pins :
     Facts.fallback_tcCond = "r.Header.Truncated" ∧
-    Facts.fallback_tcpCall = "return u.t.ExchangeContext(ctx, q)" := by decide
+    Facts.fallback_tcpCall = "return u.t.ExchangeContext(ctx, q)" ∧
+    Facts.fallback_udpCall = "r, err := u.u.ExchangeContext(ctx, q)" ∧
+    -- both legs dial the same address
+    Facts.fallback_udpDial = "return dialer.DialContext(ctx, \"udp\", dialAddr)" ∧
+    Facts.fallback_tcpDial = "return dialer.DialContext(ctx, \"tcp\", dialAddr)" := by decide
 
 end MosVerif.C16
